@@ -30,11 +30,12 @@ type spec struct {
 	read     int // read buffer size
 	hints    int // index into hint variants
 	pubRing  bool
+	x        hard // hardening dimensions (harden.go); the zero value is the plain case
 }
 
 func (s spec) String() string {
 	return fmt.Sprintf("%s to=%v signer=%s hash=%s cipher=%s comp=%s s2k=%d pass=%d msg=%s chunk=%d read=%d hints=%d",
-		s.op, s.to, s.signer, hashName[s.hash], cipherName[s.cipher], compName[s.comp], s.s2kCount, len(s.pass), s.msgName, s.chunk, s.read, s.hints)
+		s.op, s.to, s.signer, hashName[s.hash], cipherName[s.cipher], compName[s.comp], s.s2kCount, len(s.pass), s.msgName, s.chunk, s.read, s.hints) + s.x.String()
 }
 
 // produced is an output kept for the gpg pass.
@@ -75,7 +76,18 @@ func writeChunks(w interface{ Write([]byte) (int, error) }, msg []byte, chunk in
 func (w *world) produce(s spec) (out []byte, err error) {
 	var buf bytes.Buffer
 	cfg := w.cfg(s.String(), s.hash, s.cipher, s.comp)
+	if s.x.fixedRand {
+		cfg.Rand = vf.NewRand("c44|fixed|" + s.String())
+	}
 	cfg.S2KCount = s.s2kCount
+	if s.x.level != 0 {
+		cfg.CompressionConfig = &packet.CompressionConfig{Level: s.x.level - 2}
+	}
+	hints := hintsOf(s.hints)
+	if s.x.clobW && hints != nil {
+		h := *hints
+		hints = &h
+	}
 	var signer *openpgp.Entity
 	if s.signer != "" {
 		signer = w.keys[s.signer].sec
@@ -93,27 +105,40 @@ func (w *world) produce(s spec) (out []byte, err error) {
 				for _, n := range s.to {
 					to = append(to, w.keys[n].pub)
 				}
-				wc, err = openpgp.Encrypt(&buf, to, signer, hintsOf(s.hints), cfg)
+				wc, err = openpgp.Encrypt(&buf, to, signer, hints, cfg)
 			case "sign":
-				wc, err = openpgp.Sign(&buf, signer, hintsOf(s.hints), cfg)
+				wc, err = openpgp.Sign(&buf, signer, hints, cfg)
 			default:
-				wc, err = openpgp.SymmetricallyEncrypt(&buf, s.pass, hintsOf(s.hints), cfg)
+				pass := s.pass
+				if s.x.clobW {
+					pass = append([]byte{}, s.pass...)
+				}
+				wc, err = openpgp.SymmetricallyEncrypt(&buf, pass, hints, cfg)
+				if s.x.clobW {
+					clobber(pass) // the caller may wipe its passphrase as soon as the call returns
+				}
 			}
 			if err != nil {
 				return
+			}
+			if s.x.clobW {
+				if hints != nil { // the hints structure belongs to the caller again
+					*hints = openpgp.FileHints{IsBinary: !hints.IsBinary, FileName: "clobbered", ModTime: time.Unix(1, 0)}
+				}
+				wc = clobberWriter{wc}
 			}
 			if err = writeChunks(wc, s.msg, s.chunk); err != nil {
 				return
 			}
 			err = wc.Close()
 		case "detach":
-			err = openpgp.DetachSign(&buf, signer, bytes.NewReader(s.msg), cfg)
+			err = openpgp.DetachSign(&buf, signer, s.x.source(s.msg), cfg)
 		case "detachtext":
-			err = openpgp.DetachSignText(&buf, signer, bytes.NewReader(s.msg), cfg)
+			err = openpgp.DetachSignText(&buf, signer, s.x.source(s.msg), cfg)
 		case "adetach":
-			err = openpgp.ArmoredDetachSign(&buf, signer, bytes.NewReader(s.msg), cfg)
+			err = openpgp.ArmoredDetachSign(&buf, signer, s.x.source(s.msg), cfg)
 		case "adetachtext":
-			err = openpgp.ArmoredDetachSignText(&buf, signer, bytes.NewReader(s.msg), cfg)
+			err = openpgp.ArmoredDetachSignText(&buf, signer, s.x.source(s.msg), cfg)
 		}
 	})
 	if p {
@@ -154,8 +179,14 @@ func (w *world) verify(s spec, out []byte) bool {
 	if s.pubRing && s.op == "sign" {
 		ring = w.pubs
 	}
-	r := w.readMessage(out, ring, s.pass, s.read)
+	if s.x.ring != 0 {
+		ring = w.hardRing(s)
+	}
+	r := w.readMessageX(out, ring, s)
 	switch {
+	case r.skipped:
+		c.Outcome("wrong-passphrase case skipped: " + r.panicVal)
+		return true
 	case r.panicked:
 		return bad("ReadMessage panics on a message produced by the package", map[string]any{"panic": r.panicVal, "stack": r.stack})
 	case r.parseErr != nil:
@@ -301,9 +332,9 @@ func (w *world) verifyDetached(s spec, out []byte, bad func(string, map[string]a
 	check := func(data, sig []byte) (ent *openpgp.Entity, err error, panicked bool, pv any) {
 		panicked, pv, _ = vf.Protect(func() {
 			if armored {
-				ent, err = openpgp.CheckArmoredDetachedSignature(ring, bytes.NewReader(data), bytes.NewReader(sig))
+				ent, err = openpgp.CheckArmoredDetachedSignature(ring, s.x.source(data), s.x.input(sig))
 			} else {
-				ent, err = openpgp.CheckDetachedSignature(ring, bytes.NewReader(data), bytes.NewReader(sig))
+				ent, err = openpgp.CheckDetachedSignature(ring, s.x.source(data), s.x.input(sig))
 			}
 		})
 		return
@@ -507,12 +538,15 @@ func (w *world) grid() []produced {
 	add(spec{op: "detach", signer: "rsa", hash: crypto.SHA256, msg: big.data, msgName: big.name})
 	add(spec{op: "detachtext", signer: "p256", hash: crypto.SHA512, msg: big.data, msgName: big.name})
 
+	w.hardenSpecs(add, all, bin, text)
 	c.Set("grid_points", len(specs))
 	var keep []produced
 	var mu sync.Mutex
 	perOp := map[string]int{}
 	c.ParallelFor(len(specs), func(i int) {
 		s := specs[i]
+		tStart := time.Now()
+		defer func() { c.Add("busy_ms_"+s.x.tag, time.Since(tStart).Milliseconds()) }()
 		out, err := w.produce(s)
 		c.Eval(1)
 		if err != nil {
@@ -535,7 +569,7 @@ func (w *world) grid() []produced {
 		}
 		mu.Lock()
 		perOp[s.op]++
-		if w.gpg != nil && gpgWanted(s, i, c.Thorough) {
+		if w.gpg != nil && !s.x.noGPG && gpgWanted(s, i, c.Thorough) {
 			keep = append(keep, produced{s, out})
 		}
 		mu.Unlock()
